@@ -267,6 +267,11 @@ impl<S: Read + Write> Client<S> {
     pub fn shutdown(&mut self) -> RdpResult<()> {
         self.transport.shutdown()
     }
+
+    /// True if another payload could be read without waiting for the socket
+    pub fn has_buffered_data(&self) -> bool {
+        self.transport.has_buffered_data()
+    }
 }
 
 #[cfg(test)]
